@@ -327,4 +327,24 @@ theorem tick_event_time_legacy_counterexample :
 example : TraceOK (fun _ => 0) f14DB [.tick 1716184800000000000, .ttl ⟨.day, 1⟩, .select ⟨0, 1716184800000000000, true, true⟩,
     .retention, .delold] := retention_property _ _ _
 
+/-- The C06 machine (`C06.step`, about which `partition_reachable` speaks) is the projection of the
+    database operations `create` / `interval` / `reopen` executed by the correspondence drivers. -/
+theorem applyOp_projects (z : Zone) (d : DB) :
+    let G := fun n => gridOf z ⟨d.unit, n⟩
+    let rp := reparse z d.unit
+    (∀ ts, (applyOp z d (.create ts)).lst = (C06.step G rp ⟨d.num, d.lst⟩ (.create ts)).lst ∧
+           (applyOp z d (.create ts)).num = (C06.step G rp ⟨d.num, d.lst⟩ (.create ts)).num) ∧
+    (∀ n, 1 ≤ n → (applyOp z d (.interval n)).lst = (C06.step G rp ⟨d.num, d.lst⟩ (.setInterval n)).lst ∧
+           (applyOp z d (.interval n)).num = (C06.step G rp ⟨d.num, d.lst⟩ (.setInterval n)).num) ∧
+    ((applyOp z d .reopen).lst = (C06.step G rp ⟨d.num, d.lst⟩ .reopen).lst ∧
+     (applyOp z d .reopen).num = (C06.step G rp ⟨d.num, d.lst⟩ .reopen).num) := by
+  intro G rp
+  refine ⟨?_, ?_, ?_⟩
+  · intro ts
+    simp only [applyOp, C06.step, DB.grid, DB.rule, G]
+    cases create (gridOf z ⟨d.unit, d.num⟩) d.lst ts <;> simp
+  · intro n hn
+    simp [applyOp, C06.step, hn]
+  · simp [applyOp, C06.step, DB.reopen, DB.grid, DB.rule, G, rp]
+
 end Banyan.C07
